@@ -219,7 +219,10 @@ fn observe_colours(o: &SvgOptions) -> Result<([u8; 4], [u8; 4], [u8; 4]), String
 /// applies `op` to (real, model); returns the findings of this transition
 fn step(real: &SvgOptions, model: &Model, op: &Op) -> (Option<SvgOptions>, Model, Vec<(String, String)>) {
     let mut f = vec![];
-    let next = match subject::guarded(|| op.apply(real.clone())) {
+    crate::report::case_begin(&format!("setter {} on {:?}", op.to_json(), real));
+    let applied = subject::guarded(|| op.apply(real.clone()));
+    crate::report::case_end();
+    let next = match applied {
         Ok(n) => n,
         Err(msg) => {
             let key = match op {
@@ -290,8 +293,10 @@ fn big_contents() -> Vec<String> {
 }
 
 fn compare_svg(real: &SvgOptions, model: &Model, content: &str) -> Vec<(String, String)> {
+    crate::report::case_begin(&format!("qr_svg content_len={} content_head={:?} options={:?}", content.len(), &content.chars().take(24).collect::<String>(), real));
     let got = subject::guarded(|| qr_svg(content, real.clone()));
     let want = model.native_svg(content);
+    crate::report::case_end();
     match (got, want) {
         (Err(msg), _) => {
             let key = if model.size.is_some() && model.position.is_none() { "qr_svg-panic-size-without-position" } else { "qr_svg-panic" };
@@ -320,7 +325,9 @@ fn compare_svg(real: &SvgOptions, model: &Model, content: &str) -> Vec<(String, 
 }
 
 fn compare_qr(content: &str) -> Vec<(String, String)> {
+    crate::report::case_begin(&format!("qr content_len={} content_head={:?}", content.len(), &content.chars().take(24).collect::<String>()));
     let got = subject::guarded(|| qr(content));
+    crate::report::case_end();
     let want: Result<Vec<u8>, String> = subject::guarded(|| match QRBuilder::new(content.as_bytes().to_vec()).build() {
         Ok(q) => q.data[..q.size * q.size].iter().map(|m| u8::from(m.value())).collect(),
         Err(_) => vec![],
